@@ -258,11 +258,44 @@ class ListLoopInterp(PInterp):
     constant of the program) is one element of the abstract list and counts - whether the path decided the fact at
     the loop head or before it. Nested loops (over argument lists) keep the engine's rule."""
 
+    _extra = False
+
+    def e_CallExpr(self, n, env):
+        if self._extra and self.ctx.depth == 1:
+            from .interp import Infeasible
+            raise Infeasible('loop bound')
+        return super().e_CallExpr(n, env)
+
     def exec_loop(self, s, _unused, cond, inc, body, env):
         from .interp import Infeasible, _Break, _Continue
         ctx = self.ctx
-        if cond is None or ctx.depth != 1 or any(a.kind in _LOOPS for a in s.ancestors()):
+        if ctx.depth != 1 or any(a.kind in _LOOPS for a in s.ancestors()):
             return super().exec_loop(s, _unused, cond, inc, body, env)
+        if cond is None:
+            # `for (;;) { if (tok->kind == TK_EOF) break; ... }`: the exit test is somewhere in the body. After loop_limit
+            # iterations one more is entered in which only the exit may be taken: the first call (classifying the next
+            # token is a call: equal, find_arg) ends the path - the list would be longer than the bound.
+            iters = 0
+            self._extra = False
+            try:
+                while True:
+                    iters += 1
+                    if iters > self.loop_limit:
+                        self._extra = True
+                    try:
+                        self.exec(body, env)
+                    except _Break:
+                        break
+                    except _Continue:
+                        pass
+                    if self._extra:
+                        raise Infeasible('loop bound')
+                    if inc is not None:
+                        self.eval(inc, env)
+            finally:
+                self._extra = False
+            ctx.emit('loop_done', s.line, iters - 1)
+            return
         generic = 0
         iters = 0
         while True:
